@@ -18,10 +18,15 @@ inductive Solver where
   | sfista       -- line 537: regulariser, projections
   | sfistaBox    -- line 545: regulariser, box handled as a projection
   | zeroBadModel -- lines 519-523 / 531-535: NaN/inf in gopt or H ⇒ d = 0 without calling a solver
+  | linalgError  -- line 513: `np.linalg.norm(H, 2)` raised `LinAlgError` (LAPACK's SVD on a non-finite H);
+                 -- LAPACK is modelled, not verified: whether it raises is an INPUT of the model
 deriving DecidableEq, Repr
 
-/-- lines 515-548.  `bad` = "gopt or H contains NaN or ±inf". -/
-def pickSolver (hasH hasProj bad : Bool) : Solver :=
+/-- lines 513-548.  `bad` = "gopt or H contains NaN or ±inf"; `normRaises` = the 2-norm of `H` at
+    line 513 raised (observed only when `H` is non-finite, in which case the guards at 519/531 are
+    never reached and the exception propagates to the caller). -/
+def pickSolver (hasH hasProj bad normRaises : Bool) : Solver :=
+  if normRaises then .linalgError else
   if !hasH then
     if hasProj then (if bad then .zeroBadModel else .pgd) else .trsbox
   else
@@ -39,7 +44,7 @@ def returnedStep {D : Type} (hasH : Bool) (predRed : Val) (d zero : D) : D :=
   if checksDecrease hasH then chooseStep predRed d zero else d
 
 def Solver.name : Solver → String
-  | .trsbox => "trsbox" | .pgd => "pgd" | .sfista => "sfista" | .sfistaBox => "sfista-box" | .zeroBadModel => "zero"
+  | .trsbox => "trsbox" | .pgd => "pgd" | .sfista => "sfista" | .sfistaBox => "sfista-box" | .zeroBadModel => "zero" | .linalgError => "linalg-error"
 
 end TrStep
 end Dfols
